@@ -70,8 +70,45 @@ func c06Programs(set string) []*c06Prog {
 		for _, k := range fo.Corpus() {
 			out = append(out, &c06Prog{cs: k, name: "corpus:" + k.Name})
 		}
+	case "decls":
+		out = append(out, c06DeclPrograms()...)
 	}
 	return out
+}
+
+// c06DeclPrograms: type declarations and package_info blocks whose layout (fields and cases one per
+// line, blank lines and comments between them, columns) is explored like any other layout.
+func c06DeclPrograms() []*c06Prog {
+	unit := []fo.Param{{Unit: true}}
+	V := func(n string) fo.Expr { return fo.Var{Name: n} }
+	call := func(f string, a ...fo.Expr) fo.Expr { return fo.App{Fn: f, Args: a} }
+	mk := func(name string, defs ...fo.Def) *c06Prog {
+		return &c06Prog{cs: &fo.Case{Defs: defs, Run: "run", Type: "unit", Name: "", Used: map[string]int{}}, name: "decls:" + name}
+	}
+	rec := fo.RecordDecl{Name: "Dr", Fields: []fo.FieldDecl{{Name: "A", Type: "int"}, {Name: "B", Type: "string"}, {Name: "C", Type: "[]int"}}}
+	grec := fo.RecordDecl{Name: "Dg", TParams: []string{"T"}, Fields: []fo.FieldDecl{{Name: "V", Type: "T"}, {Name: "Vs", Type: "[]T"}}}
+	uni := fo.UnionDecl{Name: "Du", Cases: []fo.CaseDecl{{Name: "Di", Payload: "int"}, {Name: "Ds", Payload: "string*int"}, {Name: "Dn"}, {Name: "Dm"}}}
+	guni := fo.UnionDecl{Name: "Do", TParams: []string{"T"}, Cases: []fo.CaseDecl{{Name: "Dsome", Payload: "T"}, {Name: "Dnone"}}}
+	group := fo.TypeGroup{Decls: []fo.Def{
+		fo.UnionDecl{Name: "Ta", Cases: []fo.CaseDecl{{Name: "Ub", Payload: "Tb"}, {Name: "Uz"}}},
+		fo.RecordDecl{Name: "Tb", Fields: []fo.FieldDecl{{Name: "Fa", Type: "int"}, {Name: "Fs", Type: "[]Ta"}}},
+	}}
+	pi := fo.PkgInfoDecl{Pkg: "extq", Lines: []string{"type H", "let Mk: ()->H", "type Box<T>", "let Use: H->int->string", "let Wrap<T>: T->Box<T>"}}
+	useRec := fo.FuncDef{Name: "run", Params: unit, Body: fo.B(call("frt.Printf1", fo.StrLit{V: "%d"}, fo.Field{E: V("r"), Name: "A"}),
+		fo.Let{Name: "r", Rhs: fo.RecordLit{Rec: "Dr", Fields: []fo.FieldInit{{Name: "A", E: fo.IntLit{V: 1}}, {Name: "B", E: fo.StrLit{V: "b"}}, {Name: "C", E: fo.SliceLit{Es: []fo.Expr{fo.IntLit{V: 2}}}}}}})}
+	useUni := fo.FuncDef{Name: "run", Params: unit, Body: fo.B(fo.Match{Target: fo.Ctor{Case: "Di", Arg: fo.IntLit{V: 3}}, Arms: []fo.Arm{
+		{Case: "Di", Bind: "i", Body: fo.B(call("frt.Printf1", fo.StrLit{V: "%d"}, V("i")))},
+		{Case: "Ds", Bind: "_", Body: fo.B(call("frt.Println", fo.StrLit{V: "s"}))},
+	}, Default: fo.B(call("frt.Println", fo.StrLit{V: "d"}))})}
+	useAll := fo.FuncDef{Name: "run", Params: unit, Body: fo.B(call("frt.Println", call("extq.Use", call("extq.Mk", fo.UnitLit{}), fo.IntLit{V: 1})))}
+	return []*c06Prog{
+		mk("record", rec, useRec),
+		mk("union", uni, useUni),
+		mk("generic-record-and-union", grec, guni, fo.FuncDef{Name: "run", Params: unit, Body: fo.B(call("frt.Println", fo.StrLit{V: "x"}))}),
+		mk("type-and-group", group, fo.FuncDef{Name: "run", Params: unit, Body: fo.B(call("frt.Println", fo.StrLit{V: "x"}))}),
+		mk("package-info", pi, useAll),
+		mk("all-declarations", rec, uni, group, pi, useRec),
+	}
 }
 
 // the converse clause: pairs of programs that differ only in the block a statement belongs to
@@ -129,10 +166,10 @@ func checkC06(c *core.Ctx) {
 		set   string
 		bound int
 	}
-	phases := []phase{{"corpus", 1}, {"k1", 1}, {"core2", 1}}
+	phases := []phase{{"corpus", 1}, {"decls", 1}, {"k1", 1}, {"core2", 1}}
 	bound := 1
 	if c.Thorough() {
-		phases = []phase{{"corpus", 2}, {"k1", 1}, {"block2", 1}, {"k1", 2}}
+		phases = []phase{{"corpus", 2}, {"decls", 2}, {"k1", 1}, {"block2", 1}, {"k1", 2}}
 		bound = 2
 	}
 	pointHist := map[string]int64{}
